@@ -86,7 +86,8 @@ class OrientedLine:
 
   @orient.setter
   def orient(self, orient):
-    if self.__editable:
+    if self.__editable and \
+        self.__dict__.get("_OrientedLine__orient_editable", True):
       self.__orient = orient
     else:
       raise gfapy.RuntimeError(
@@ -166,6 +167,14 @@ class OrientedLine:
 
   def _unblock(self):
     self.__editable = True
+
+  def _block_orient(self):
+    # the orientation of a reference of a connected line decides where the
+    # line is filed in the collections of the referenced line
+    self.__orient_editable = False
+
+  def _unblock_orient(self):
+    self.__orient_editable = True
 
   def __validate_orient(self):
     if not self.orient in ["+", "-"]:
